@@ -106,6 +106,8 @@ func c15Prop(rt *rapid.T, rec *ev.Recorder) {
 		sticky     uint64
 		trace      []string
 		behindTick bool
+		caughtUp   int    // consecutive fault-free ticks with the syncer at or past an unchanged finalized block
+		caughtFin  uint64 // the finalized block of that streak
 	)
 	chain.Hook = func(ch *fakechain.Chain, call fakechain.Call) error {
 		if call.Method == "HeaderByNumber" {
@@ -218,6 +220,29 @@ func c15Prop(rt *rapid.T, rec *ev.Recorder) {
 				}
 			}
 			trace = append(trace, fmt.Sprintf("tick(inj=%d,err=%v)", len(sender.injected)-before, tickErr != nil))
+			// bounded progress, second rule: while the syncer is caught up with an unchanged finalized block, two fault-free
+			// ticks are enough for any implementation that "keeps injecting newer finalized roots" (one tick may be spent
+			// on a target remembered from the time the syncer was behind)
+			if !tickFault && procAtStart >= finalized {
+				if caughtUp > 0 && caughtFin == finalized {
+					caughtUp++
+				} else {
+					caughtUp, caughtFin = 1, finalized
+				}
+				if l := latestLeafUpTo(finalized); l != nil && caughtUp >= 2 {
+					have := false
+					for _, x := range leaves {
+						if x.Idx >= l.Idx && sender.onL2[x.GER] {
+							have = true
+						}
+					}
+					if !have {
+						fatal(rt, "finalized block %d has been stable and processed by the syncer for %d consecutive fault-free ticks, its latest L1 info root (leaf %d) is not on L2 and the oracle does not inject it (it no longer looks at finality)\n  schedule: %v", finalized, caughtUp, l.Idx, trace)
+					}
+				}
+			} else {
+				caughtUp = 0
+			}
 			// bounded progress
 			if !tickFault {
 				var best *c15Leaf
